@@ -14,6 +14,7 @@ import common
 import gen_common as G
 import gen_checks as GC
 import gen_main
+import gen_main2
 import gen_market
 import gen_tax
 import gen_asset
@@ -186,12 +187,14 @@ def run(ctx):
         "the external sector's own NUMERAIRE pseudo-zone is excluded here (C07 states its position)"]
     # per-group balance lemmas for ALL zones / participant lists (coq/GenMarket, coq/GenTax, coq/GenAsset), each
     # tied to the implementation by its own state correspondence and oracle
-    out.proof = common.proof_status_many([(FAMILY, PROPFILE)] + gen_market.PROOFS + gen_tax.PROOFS + gen_asset.PROOFS + gen_main.PROOFS)
+    out.proof = common.proof_status_many([(FAMILY, PROPFILE)] + gen_market.PROOFS + gen_tax.PROOFS + gen_asset.PROOFS + gen_main2.PROOFS)
     gen_market.extra(ctx, out, 150, 2000)
     gen_tax.extra(ctx, out)
     gen_asset.extra(ctx, out)
-    # whole-pipeline model of Model.main() for single-currency programs with program-level theorems (coq/GenMain)
-    gen_main.extra(ctx, out)
+    # whole-pipeline models of Model.main() with program-level theorems (coq/GenMain2): single-currency programs
+    # (Main.build) and programs with several currency zones, ExternalSector and gold standard (Main2.build2)
+    gen_main.extra(ctx, out, 50, 800)
+    gen_main2.extra(ctx, out)
     return out
 
 
@@ -207,6 +210,8 @@ def replay(path):
         return 1 if fails else 0
     if r.get('kind') == 'main':
         return gen_main.replay(obj)
+    if r.get('kind') == 'main2':
+        return gen_main2.replay(obj)
     if r.get('kind') == 'market':
         return gen_market.replay(obj)
     if r.get('kind') in ('tax', 'dividends'):
